@@ -27,6 +27,10 @@ struct OracleOpts
     //! Relative integration error of the field driver (epsilon_step): the end
     //! point may be off the true helix by this fraction of the path
     double field_rel_tol{0};
+    //! Uniform field [T] and the driver's delta_chord: used to recognise the
+    //! recorded C08 regime (substeps of more than 1 rad pass the chord test)
+    double field_tesla[3]{0, 0, 0};
+    double field_delta_chord{0};
 };
 
 void check_history(History const& h,
